@@ -124,7 +124,7 @@ func sorted(v []uint64) []uint64 {
 	return out
 }
 func ints(ss []S) []uint64 { return tr.Ints(ss) }
-func emptyU() []uint64    { return []uint64{} }
+func emptyU() []uint64     { return []uint64{} }
 
 // subsets of v in mask order (the empty set first)
 func subsetsOf(v []uint64) [][]uint64 {
